@@ -1,5 +1,6 @@
 import RichModel.Model.Term
 import RichModel.Model.Live
+import RichModel.Gen.CellWidths
 import RichModel.Drv.Proto
 /- Driver handlers for property C10 (terminal replay, live / progress / status state machine).
 
@@ -9,17 +10,25 @@ Request formats (fields separated by TAB, see harness/props/c10.py):
 * `live_with  cfg  init  faults  ops  raiseAt`  -> `termops#raised#` final control state
 * `live_spec  cfg  init  ops`                   -> `wf;printed;lastFrame`
 * `live_specm cfg  init  ops`                   -> `wfM;rows` (finished ++ liveFrameOf, trailing spaces / blank rows trimmed)
-cfg  = `kind,transient,W,H,redirOut,redirErr,bareBypass,startGuard,overflow,resetShape`  (numbers)
+cfg  = `kind,transient,W,H,redirOut,redirErr,bareBypass,startGuard,overflow,resetShape,blankFix,flushFix,terminal,dumb,disable,spin`
+       (numbers; `spin` = code points of what the Status spinner shows at the 0th, 1st, … render)
 init = initial renderable as a line list `n:l1,l2,…`
 faults = `-` | comma separated call indices, the last one optionally `k+` (every index ≥ k)
 ops  = operations joined by `|` : `S` `X` `B` `R` `P<lines>` `U<refresh>;<lines>` `A<visible>;<desc>`
-       `V<id>;<n>` `H<id>;<visible>;<refresh>` `D<id>`
+       `V<id>;<n>` `H<id>;<visible>;<refresh>` `D<id>` `W<err>;<lines>;<tail>`
+       `A<visible>;<desc>;<total>` `E<id>;<total>;<advance>;<completed>;<=desc>;<visible>;<refresh>` `Z<width>`
 -/
 namespace RichModel.Drv.C10
 open RichModel RichModel.Proto RichModel.Live
 
+/-- `get_character_cell_size` over the table translated from rich/_cell_widths.py on this run. -/
+def cw : Char → Nat := charWidthT Gen.cellWidths
+
+/-- characters of a row of cells (filler cells of double-width characters dropped) -/
+def unfill (l : List Char) : List Char := l.filter (· != '\x00')
+
 def encOp : TermOp → String
-  | .text s => "T" ++ encStr s
+  | .text s => "T" ++ encStr (unfill s)
   | .lf => "L"
   | .cr => "C"
   | .cuu n => "U" ++ toString n
@@ -33,7 +42,7 @@ def encOps (l : List TermOp) : String := ",".intercalate (l.map encOp)
 
 def decTermOp (s : String) : Option TermOp :=
   match s.toList with
-  | 'T' :: r => some (.text (decStr (String.ofList r)))
+  | 'T' :: r => some (.text (cells cw (decStr (String.ofList r))))
   | ['L'] => some .lf
   | ['C'] => some .cr
   | 'U' :: r => (String.ofList r).toNat?.map .cuu
@@ -46,7 +55,7 @@ def decTermOps (s : String) : Option (List TermOp) :=
   if s.isEmpty then some [] else (s.splitOn ",").mapM decTermOp
 
 def encScreen (s : Screen) : String :=
-  encStrList s.rows ++ ";" ++ toString s.row ++ ";" ++ toString s.col ++ ";" ++ encBool s.visible
+  encStrList (s.rows.map unfill) ++ ";" ++ toString s.row ++ ";" ++ toString s.col ++ ";" ++ encBool s.visible
 
 def decKind : String → Option Kind
   | "0" => some .live | "1" => some .progress | "2" => some .status | _ => none
@@ -56,14 +65,17 @@ def decOverflow : String → Option Overflow
 
 def decCfg (s : String) : Option (Cfg × Overflow) :=
   match s.splitOn "," with
-  | [k, tr, w, h, ro, re, bb, sg, ov, rs] => do
+  | [k, tr, w, h, ro, re, bb, sg, ov, rs, bf, ff, tm, db, ds, sp] => do
     let kind ← decKind k
     let ov ← decOverflow ov
     let w ← w.toNat?
     let h ← h.toNat?
+    let spins := decStr sp
     some ({ kind := kind, transient := decBool tr, width := w, height := h, redirectStdout := decBool ro,
             redirectStderr := decBool re, bareBypass := decBool bb, startGuard := decBool sg,
-            resetShape := decBool rs }, ov)
+            resetShape := decBool rs, blankFix := decBool bf, flushFix := decBool ff,
+            terminal := decBool tm, dumb := decBool db, disable := decBool ds,
+            spin := fun i => spins.getD i '⠋', cw := cw }, ov)
   | _ => none
 
 def decFaults (s : String) : Option (Nat → Bool) :=
@@ -87,17 +99,30 @@ def decOp1 (s : String) : Option Op :=
     | _ => none
   | 'A' :: r =>
     match (String.ofList r).splitOn ";" with
-    | [v, d] => some (.addTask (decStr d) (decBool v))
+    | [v, d, t] => do some (.addTask (decStr d) (decBool v) (← t.toNat?))
     | _ => none
-  | 'V' :: r =>
+  | 'V' :: r =>     -- Progress.advance(id, n)
     match (String.ofList r).splitOn ";" with
-    | [i, n] => do some (.advance (← i.toNat?) (← n.toNat?))
+    | [i, n] => do some (.updateTask (← i.toNat?) { advance := some (← n.toNat?) } false)
     | _ => none
-  | 'H' :: r =>
+  | 'H' :: r =>     -- Progress.update(id, visible=v, refresh=rf)
     match (String.ofList r).splitOn ";" with
-    | [i, v, rf] => do some (.setVisible (← i.toNat?) (decBool v) (decBool rf))
+    | [i, v, rf] => do some (.updateTask (← i.toNat?) { visible := some (decBool v) } (decBool rf))
     | _ => none
+  | 'E' :: r =>     -- Progress.update / reset / one step of track: id;total;advance;completed;desc;visible;refresh (`-` = not given)
+    match (String.ofList r).splitOn ";" with
+    | [i, t, a, c, d, v, rf] => do
+      some (.updateTask (← i.toNat?)
+        { total := decOptNat t, advance := decOptNat a, completed := decOptNat c,
+          desc := if d == "-" then none else some (decStr (d.drop 1).toString),
+          visible := if v == "-" then none else some (decBool v) } (decBool rf))
+    | _ => none
+  | 'Z' :: r => (String.ofList r).toNat?.map .resize
   | 'D' :: r => (String.ofList r).toNat?.map .removeTask
+  | 'W' :: r =>
+    match (String.ofList r).splitOn ";" with
+    | [e, ls, t] => some (.write (decBool e) (decStrList ls) (decStr t))
+    | _ => none
   | _ => none
 
 def decOpsL (s : String) : Option (List Op) :=
@@ -112,7 +137,8 @@ def encShape : Option (Nat × Nat) → String
 def encCtl (st : St) : String :=
   ",".intercalate [encBool st.started, toString st.hooks, toString st.stdoutDepth, toString st.stderrDepth,
     encBool st.restoreStdout.isSome, encBool st.restoreStderr.isSome, encShape st.shape, toString st.taskIndex,
-    (match st.overflow with | .crop => "0" | .ellipsis => "1" | .visible => "2")]
+    (match st.overflow with | .crop => "0" | .ellipsis => "1" | .visible => "2"),
+    "o" ++ encStr st.bufOut, "e" ++ encStr st.bufErr]
 
 /-- the model covers terminals of height ≥ 1; `ellipsis` needs width ≥ 3; progress rows must fit the width -/
 def inDomain (cfg : Cfg) (ov : Overflow) (ops : List Op) : Bool :=
@@ -121,11 +147,11 @@ def inDomain (cfg : Cfg) (ov : Overflow) (ops : List Op) : Bool :=
 /-- initial renderable: a Status wraps its initial status in the spinner grid -/
 def initOf (cfg : Cfg) (ov : Overflow) (init : String) : St :=
   let r0 := decStrList init
-  initSt ov (if cfg.kind == .status then statusFrame r0 else r0)
+  initSt ov (if cfg.kind == .status then statusFrame cw r0 else r0)
 
 def initFrame (cfg : Cfg) (init : String) : Frame :=
   let r0 := decStrList init
-  if cfg.kind == .status then statusFrame r0 else r0
+  if cfg.kind == .status then statusFrame cw r0 else r0
 
 def runPerOp (cfg : Cfg) (fails : Nat → Bool) : St → List Op → List String × St
   | st, [] => ([], st)
@@ -138,8 +164,16 @@ def runPerOp (cfg : Cfg) (fails : Nat → Bool) : St → List Op → List String
 def rstrip (l : Line) : Line := (l.reverse.dropWhile (· == ' ')).reverse
 def trimFrame (f : Frame) : Frame := ((f.map rstrip).reverse.dropWhile (·.isEmpty)).reverse
 
-/-- rows of the tasks table must fit the console width (otherwise Rich wraps: outside the model) -/
-def tableFits (cfg : Cfg) (st : St) : Bool := maxWidth st.renderable ≤ cfg.width
+/-- rows of the tasks table must fit the console width (otherwise Rich truncates them with an ellipsis:
+outside the model) — both the table built by the last refresh and the one the next refresh would build -/
+def tableFits (cfg : Cfg) (st : St) : Bool :=
+  cfg.kind != .progress ||
+    (maxWidth cfg.cw st.renderable ≤ curWidth cfg st && maxWidth cfg.cw (tasksTable cfg.cw st.tasks) ≤ curWidth cfg st)
+
+/-- does a whole history stay within the modelled domain? -/
+def historyFits (cfg : Cfg) (fails : Nat → Bool) : St → List Op → Bool
+  | st, [] => tableFits cfg st
+  | st, op :: rest => tableFits cfg st && historyFits cfg fails (step cfg fails st op).st rest
 
 def handlers : List (String × (List String → String)) := [
   ("term_replay", fun a => match a with
@@ -152,7 +186,7 @@ def handlers : List (String × (List String → String)) := [
     | [cfg, init, faults, ops] =>
       match decCfg cfg, decFaults faults, decOpsL ops with
       | some (cfg, ov), some fails, some ops =>
-        if !inDomain cfg ov ops then "unmodelled" else
+        if !inDomain cfg ov ops || !historyFits cfg fails (initOf cfg ov init) ops then "unmodelled" else
         let (l, st) := runPerOp cfg fails (initOf cfg ov init) ops
         "|".intercalate l ++ "#" ++ encCtl st
       | _, _, _ => "unmodelled"
@@ -161,7 +195,7 @@ def handlers : List (String × (List String → String)) := [
     | [cfg, init, faults, ops, raiseAt] =>
       match decCfg cfg, decFaults faults, decOpsL ops with
       | some (cfg, ov), some fails, some ops =>
-        if !inDomain cfg ov ops then "unmodelled" else
+        if !inDomain cfg ov ops || !historyFits cfg fails (initOf cfg ov init) (.start :: ops) then "unmodelled" else
         let (st, out, raised) := runWith cfg fails (initOf cfg ov init) ops (decOptNat raiseAt)
         encOps out ++ "#" ++ encBool raised ++ "#" ++ encCtl st
       | _, _, _ => "unmodelled"
@@ -170,7 +204,7 @@ def handlers : List (String × (List String → String)) := [
     | [cfg, init, faults, pre, ops, raiseAt] =>
       match decCfg cfg, decFaults faults, decOpsL pre, decOpsL ops with
       | some (cfg, ov), some fails, some pre, some ops =>
-        if !inDomain cfg ov (pre ++ ops) then "unmodelled" else
+        if !inDomain cfg ov (pre ++ ops) || !historyFits cfg fails (initOf cfg ov init) (pre ++ .start :: ops) then "unmodelled" else
         let (st0, out0, _) := run cfg fails (initOf cfg ov init) pre
         let (st, out, raised) := runWith cfg fails st0 ops (decOptNat raiseAt)
         encOps (out0 ++ out) ++ "#" ++ encBool raised ++ "#" ++ encCtl st
